@@ -11,6 +11,8 @@
 import ModVerif.Generated.FnTile
 import ModVerif.Model.Tile
 import ModVerif.Proofs.TieFnTile
+import ModVerif.Proofs.TieFnTilePath
+import ModVerif.Proofs.TieFnTileParse
 namespace ModVerif.Tie.FnTile
 open ModVerif ModVerif.GoRt ModVerif.TieFnTile
 
@@ -79,5 +81,46 @@ theorem TileForIndex_tie (fuel : Nat) (h index : Int) (hh2 : h < 2 ^ 63) (h0 : 0
 
 example : Generated.Tile.TileForIndex 64 2 44 = .ok ⟨2, 1, 1, 2⟩ ∧
     tfiPubOut (Tile.tileForIndexPub (2 : Int).toNat (44 : Int).toNat) = .ok ⟨2, 1, 1, 2⟩ := ⟨rfl, rfl⟩
+
+/-- `Tile.Path()` of (the image of) any model tile — data tiles included (`L = -1` prints as "data") — with `H ≤ 62`
+    (`1 << H` is an int64; for larger `H` the Go shift gives 0 or MinInt64 and the model's `2^h` no longer describes it)
+    and `N` an int64.  Constant fuel: `N < 2^63` has at most seven 3-digit groups. -/
+theorem Tile_Path_tie (fuel : Nat) (t : Tile.Tile) (hh : t.h ≤ 62) (hn : t.n < 2 ^ 63) (hf : 8 ≤ fuel) :
+    Generated.Tile.Tile_Path fuel (toGen t) = .ok (Tile.tilePath t) :=
+  Tile_Path_eq fuel t hh hn hf
+
+example : (Generated.Tile.Tile_Path 8 (toGen ⟨3, 4, 1234067, 1, false⟩)).toOption = some (B "tile/3/4/x001/x234/067.p/1") ∧
+    Tile.tilePath ⟨3, 4, 1234067, 1, false⟩ = B "tile/3/4/x001/x234/067.p/1" := by
+  constructor <;> decide +kernel
+
+/-- `ParseTilePath(path)`: `ptpOut` maps the model's `some t` to `(toGen t, nil)` and `none` to `(Tile{}, badPathError)`.
+    Range hypotheses: `len(path)` is an int (`len(f) - 2` is computed), and `hfit`: the running value of the
+    `n = n*pathBase + nn` loop over the `NNN` elements (`nSegs path`, exactly the list the model's `parseN` is applied to)
+    stays below `2^63` at every step (`Fits`).  Without it the Go code wraps around silently — and then rejects the path
+    because `t.Path()` differs — whereas the checked translation reports the overflow; the model rejects `n ≥ 2^63`
+    directly.  `fits_of_short`: every path with at most 9 `/`-separated elements satisfies `hfit`. -/
+theorem ParseTilePath_tie (fuel : Nat) (path : Bytes) (hfit : Fits (nSegs path) 0)
+    (hplen : path.length + 1 < 2 ^ 63) (hf : path.length + 9 ≤ fuel) :
+    Generated.Tile.ParseTilePath fuel path = .ok (ptpOut (Tile.parseTilePath path)) :=
+  ParseTilePath_eq fuel path hfit hplen hf
+
+/-- the same for paths of at most 9 elements (`tile/H/L/` + up to six `NNN` elements: every `N < 10^18`, or `N < 10^15`
+    with a `.p/W` suffix), without reference to `Fits` -/
+theorem ParseTilePath_tie_short (fuel : Nat) (path : Bytes) (hshort : (splitOn 47 path).length ≤ 9)
+    (hplen : path.length + 1 < 2 ^ 63) (hf : path.length + 9 ≤ fuel) :
+    Generated.Tile.ParseTilePath fuel path = .ok (ptpOut (Tile.parseTilePath path)) :=
+  ParseTilePath_eq fuel path (fits_of_short path hshort) hplen hf
+
+example : (Generated.Tile.ParseTilePath 40 (B "tile/3/4/x001/x234/067.p/1")).toOption = some (⟨3, 4, 1234067, 1⟩, none) ∧
+    ptpOut (Tile.parseTilePath (B "tile/3/4/x001/x234/067.p/1")) = (⟨3, 4, 1234067, 1⟩, none) := by
+  constructor <;> decide +kernel
+
+example : (Generated.Tile.ParseTilePath 40 (B "tile/3/data/x001/067")).toOption = some (⟨3, -1, 1067, 8⟩, none) ∧
+    ptpOut (Tile.parseTilePath (B "tile/3/data/x001/067")) = (⟨3, -1, 1067, 8⟩, none) := by
+  constructor <;> decide +kernel
+
+example : (Generated.Tile.ParseTilePath 40 (B "tile/3/4/1067")).toOption = some (default, some "badPathError") ∧
+    ptpOut (Tile.parseTilePath (B "tile/3/4/1067")) = (default, some "badPathError") := by
+  constructor <;> decide +kernel
 
 end ModVerif.Tie.FnTile
